@@ -46,7 +46,7 @@ def combink(l,p,k):
     assert 0<p<=n
     # create internal "static" variable:
     if not hasattr(combink,'r'):
-        combink.r = range(n)+[-1]
+        combink.r = list(range(n))+[-1]
     if k<p:
         #print '\t'*k + "k=%d, loop:[%d,%d]"%(k,combink.r[k-1]+1,n-p+k+1)
         for i in range(combink.r[k-1]+1, n-p+k+1):
